@@ -635,6 +635,13 @@ func (s *sessRun) tamperMatrix(rng *mrand.Rand) {
 				b[p] = 'Q'
 			}
 			mod, label = string(b), "one character of the text changed"
+			// (the last character of a base64 text carries unused bits: a change there may decode to the very same bytes, which is
+			// the same authentic value in another spelling, not a modified cookie)
+			if d0, e0 := base64.URLEncoding.DecodeString(orig); e0 == nil {
+				if d1, e1 := base64.URLEncoding.DecodeString(mod); e1 == nil && bytes.Equal(d0, d1) {
+					continue
+				}
+			}
 		case 7:
 			mod, label = "", "empty value"
 		default:
